@@ -4,7 +4,9 @@ Tie H: generated list scripts (literals, range comprehensions, append/remove - a
 argument, in particular of the very list that is modified: `ring.append(ring[0])`, `w.remove(w[-1])` -, indexing incl.
 negative indices, `x = y` copies, re-assignment, TUPLE ASSIGNMENTS between lists (swaps, rotations, permutations; with
 literals, repeated names and new names outside the guard), lists returned by user functions, lists local to the main
-loop, lists passed by value to user functions, lists shared between setup() and the main loop) are
+loop, lists passed by value to user functions, lists shared between setup() and the main loop, INDICES BUILT FROM len()
+(`x[len(y) - 1]`, `x[2 - len(y)]`: the parser folds len() to the length of its parse-time copy of the list) next to append / remove of
+RUN-TIME scalars (`x.remove(c + 1)`, c read from a sensor in every pass)) are
   * run as statements by the extracted Coq model (coq/Wire/C09W.v: parser's choice of emitted form, the list helper
     templates as heap transformers, setup() + N passes of loop(), and the CPython reference semantics),
   * executed under real CPython (harness/impl/c09_impl.py: printed values, live list data after every phase),
@@ -27,7 +29,7 @@ from harness import fw
 META = {
     "id": "C09",
     "technique": "Coq proof (heap model of the emitted list helper templates; single-owner invariant by induction over statements and passes; simulation of the CPython reference semantics) + extracted-model correspondence with the real transpiler's firmware compiled with clang++ ASan/UBSan and an interposed allocation counter + CPython reference run + property oracle on the sanitizer verdict and per-pass heap usage",
-    "level_text": "Theorems C09_* (coq/Props/C09.v): every list helper is safe iff Python's index condition holds and frees exactly what it replaces (all heaps, all lists), also when the `const T&` argument of append/remove refers into a list buffer - of the same list included (C09_argument_alias_safe); tuple assignments that permute declared lists keep every buffer single-owned (values after = permutation of values before, proved for all permutations); for every single-owner list program and every number of passes the firmware is memory-safe whenever CPython raises no exception, every reachable heap holds exactly the cells of the live lists, and heap usage follows Python's live data (partial: guard single_owner). Refuted with witnesses reproduced on the real firmware under ASan: `b = a` aliasing (use after free, double free), by-value list parameter mutated by the callee, list locals of the main loop and re-assignment temporaries (one block leaked per pass), `c = a` deep copy vs Python alias (heap grows while Python's live data is constant), `a = ident(a)` (__redu_list_assign from a temporary sharing the buffer: use after free), `a, b = [..], a` (tuple assignment drops a buffer without delete[]: leak); reproduced but outside the model: stale transpile-time len() used as index (out-of-bounds read).",
+    "level_text": "Theorems C09_* (coq/Props/C09.v): every list helper is safe iff Python's index condition holds and frees exactly what it replaces (all heaps, all lists), also when the `const T&` argument of append/remove refers into a list buffer - of the same list included (C09_argument_alias_safe); tuple assignments that permute declared lists keep every buffer single-owned (values after = permutation of values before, proved for all permutations); for every single-owner list program and every number of passes the firmware is memory-safe whenever CPython raises no exception, every reachable heap holds exactly the cells of the live lists, and heap usage follows Python's live data (partial: guard single_owner). Refuted with witnesses reproduced on the real firmware under ASan: `b = a` aliasing (use after free, double free), by-value list parameter mutated by the callee, list locals of the main loop and re-assignment temporaries (one block leaked per pass), `c = a` deep copy vs Python alias (heap grows while Python's live data is constant), `a = ident(a)` (__redu_list_assign from a temporary sharing the buffer: use after free), `a, b = [..], a` (tuple assignment drops a buffer without delete[]: leak); the parser's parse-time copy of every list and the folding of len() are inside the model (coq/Device/DListLen.v): C09_len_fold_safe_partial / C09_len_fold_no_leak_partial - for every script of the len() layer inside the guard len_ok, every sequence of run-time values and every number of passes, CPython free of exceptions implies a memory-safe firmware run with the FOLDED lengths; refuted with witnesses reproduced under ASan: folded len() stale through an untaken branch, in a later pass of an unbalanced loop body, after a re-binding inside a branch, after remove(<run-time value>) dropped the wrong entry of the copy (out-of-bounds reads).",
     "level_note": "Trusted: Coq kernel, extraction (ExtrOcamlBasic), OCaml driver, mock Arduino core (operator new[]/delete[] interposed: live-block/byte counter), clang++ 14 AddressSanitizer/UBSan as the memory checker, CPython 3.12 as the reference. The theorems are about the Gallina heap model; the correspondence bounds its distance from emitter.py's LIST_HELPER_SNIPPET and parser.py's assignment lowering. Element values are ints; String buffers, C int overflow of range(), control flow around list statements and the heap behaviour of the real AVR allocator are outside the model.",
     "design_ref": "DESIGN.md section 4 C09",
 }
@@ -632,6 +634,16 @@ def gen_len_part(rng, N, pattern, flavour="in"):
         setup = [[0, 0, l0]] + [gen_decl(rng, x) for x in names[1:]]
         for _ in range(rng.randint(0, 3)):
             setup.append(gen_use(rng, setup, names, allow=(3, 8, 8, 4, 5, 10, 2, 3, 8)))
+        if rng.random() < 0.4:
+            # a len() read before the main loop (folded against the copy as it is at that line)
+            pos = rng.randint(len(names), len(setup))
+            env = cur_lists(setup[:pos])
+            x = rng.choice(names)
+            y = x if rng.random() < 0.7 else rng.choice(names)
+            nx, ny = len(env.get(x, [])), len(env.get(y, []))
+            if nx:
+                target = rng.choice([nx - 1, 0, -1, -nx])
+                setup.insert(pos, [14, x, y, 1, target - ny])
         body, gates, fresh = [], [], 200
         for _ in range(rng.randint(1, 3)):
             r = rng.random()
@@ -1261,7 +1273,14 @@ def run(ctx: C.Ctx):
                 "to the main loop, struct copies local to loop(), a callee mutating its by-value list parameter; half of the (a) parts put "
                 "their loop statements under run-time conditions `if c > t:` (t in -1 (none), 0, 1, 2; c = analogRead per pass from 3 input "
                 "patterns), so that different passes execute different statement sequences (append/remove pairs share a gate); (d) every statement "
-                "sequence of length <= 2 (quick) / <= 3 (thorough) over a 16-statement boundary alphabet (incl. l0.append(l0[-1]), l0.remove(l0[0]), l0 = ident(l0)) on l0 = [1, 2] as loop body. Every "
+                "sequence of length <= 2 (quick) / <= 3 (thorough) over a 16-statement boundary alphabet (incl. l0.append(l0[-1]), l0.remove(l0[0]), l0 = ident(l0)) on l0 = [1, 2] as loop body; "
+                "(e) kind len-in / len-out (coq/Device/DListLen.v, wire mode 2): a list l0 holding every run-time value c + off of the input pattern plus boundary values, 0-2 further lists "
+                "(literal: the parser keeps a copy; comprehension: no copy, run-time __redu_len), setup uses (constant / element appends - elements of comprehension lists leave "
+                "placeholders in the copy -, constant removes, `x = x`, permutations: the targets lose their copy), 40 % with a len() read before the loop; loop body = 1-3 balanced pairs "
+                "(rotation by the RUN-TIME value `l0.remove(c + off); l0.append(c + off)` - also append first -, by an own element, by a constant of the list, by a fresh constant), "
+                "25 % an ungated permutation, 2-4 reads `x[len(y) + k]` / `x[k - len(y)]` (y = x 70 %; target index boundary-heavy: len-1, 0, -1, -len, random) under gates -1 / 0 / 1 / 2, "
+                "optional plain read; len-out applies one stale-copy change: a gate on an append / remove, one statement of a pair dropped, a gated permutation, a constant remove of the "
+                "copy's first entry after the run-time remove. Every "
                 "part is classified by the model; parts it expects to run safely are batched 10 per sketch (disjoint names), the others "
                 "run one per sketch (quick tier: a seeded sample). evaluations = phases (setup + passes) of in-guard exception-free "
                 "sketches judged by the oracle + 1 per other sketch compared; distinct non-trivial = distinct parts with more than 2 statements.",
@@ -1290,15 +1309,16 @@ def run(ctx: C.Ctx):
                        "subscript stores `a[i] = v` (the transpiler drops the line: C07's domain; the model keeps list_set as a helper-level operation only)",
                        "allocator behaviour of the real AVR heap (fragmentation, new[] failure); out-of-bounds reads that ASan cannot see "
                        "(1-4 ints before the buffer fall into the mock counter's own header: counted in distribution.oob_not_detected_by_asan)",
-                       "len() of a list (constant-folded by the parser: C03's domain; its memory-safety consequence is recorded as F-C09-stale-len-out-of-bounds and replayed, not modelled)",
-                       "append/remove arguments that are expressions over list elements (`a.append(a[0] + 1)`: a temporary, by value) or run-time scalars; list literals built from elements of lists (`b = [a[1], a[0]]`)",
+                       "len() outside an index of the forms `len(y) + k`, `k - len(y)` (`n = len(a)` stored in a variable, `for i in range(len(a))`, len() of strings / literals, len() in conditions); "
+                       "list literals with run-time elements (`[1, c]`: no parse-time copy); run-time scalars other than `c + off` with c read once per pass, run-time scalars before the main loop",
+                       "append/remove arguments that are expressions over list elements (`a.append(a[0] + 1)`: a temporary, by value); list literals built from elements of lists (`b = [a[1], a[0]]`)",
                        "tuple assignments that mix lists and scalars, or declare some targets and assign others inside setup() (the new names become locals of setup(): C06's domain)",
                        "the order of evaluation of `list.data[i] == value` inside __redu_list_remove when BOTH operands are invalid (outside the guard only)"],
         "trusted_base": C.COMMON_TRUSTED + [
             "mock/mock_core.cpp operator new[]/delete[] interposition (live blocks / bytes, sampled after setup() and every pass), mock Serial printing",
             "clang++ 14 -fsanitize=address,undefined -O0 as the memory checker (halting on the first report; class read from its SUMMARY line)",
             "harness/fw.py, harness/impl/transpile_impl.py (real parse+emit), harness/impl/c09_impl.py (CPython exec of the same lines; live data = total length of distinct list objects bound to module names)",
-            "harness/props/c09.py: script text of a statement, guard_py (cross-checked against the model), classification of sanitizer reports"],
+            "harness/props/c09.py: script text of a statement, guard_py / track_py (cross-checked against the model's single_owner / len_ok on every case), classification of sanitizer reports"],
     })
     ctx.assumptions += ["the mock core + ASan/UBSan define 'memory error' (DESIGN.md section 3); freed blocks are quarantined, so a stale pointer never aliases a newer block during a run",
                         "sizeof(int) = 4 under the mock (live bytes = 4 * live cells)",
